@@ -10,7 +10,8 @@
    their parameters): the generator calls it makes, in order, and what it returns —
      RFresh o : a Module created by this body run, anonymous (o = None) or named by the body (o = Some n);
      RPass i  : the Module returned by its i-th nested generator call (MosStack -> Series).
-   Exceptions end the history (the state after a raise is not modelled here; that is property C08).
+   Exceptions end the history HERE; Model/C09GenFail.v keeps the state a raising call leaves behind and lets the history go
+   on (refused, and refused again; naming that fails after the body ran), and extends this model on answered calls.
    Generators declared with enable_cache=False are outside the property and not modelled. *)
 Require Import Hdl21.Base.PyInt.
 From Coq Require Import String.
